@@ -85,6 +85,12 @@ pub trait ReadFix: Read {
 impl<R: Read> ReadFix for R {}
 
 impl Any {
+    // (a) TOTAL: no panic / overflow on any input; TERMINATION: `decreases old(decoder).rest().len()` -- every recursive call
+    //     happens after the tag byte has been consumed, so the recursion depth is at most the input length (the STACK
+    //     depth itself is not bounded by any contract: a 1 MB input of nested arrays `75 01 75 01 ..` recurses ~500 000 deep);
+    //     PROGRESS: an array element takes >= 1 byte, a map entry >= 2 bytes (invariants `decoder.rest().len() + c * n <= s2.len()`)
+    // (b) ALLOCATION BUDGET: `HashMap::with_capacity(len)` / `Vec::with_capacity(len)`, len: usize straight from a var-int
+    //                                                                                          -- FINDING F-DC-7 (see unit.rs)
     /*@extract yrs/src/any.rs | impl Any | fn decode | label=any_decode | rules=SUB(from=HashMap::with_capacity;;to=vx_budget(decoder).map_with_capacity::<String, Any>) SUB(from=Vec::with_capacity;;to=vx_budget(decoder).vec_with_capacity::<Any>) SUB(from=Arc::from(str);;to=vx_arc_str(str)) SUB(from=Arc::new(map);;to=AnyMap(map)) SUB(from=Arc::from(arr);;to=AnyArr(arr)) SUB(from=Arc::from(decoder.read_buf()?);;to=vx_arc_bytes(decoder.read_buf()?))
     @ret res
     @sig
@@ -95,5 +101,93 @@ impl Any {
             suffix_of(old(decoder).rest(), final(decoder).rest()),
             res is Ok ==> final(decoder).rest().len() < old(decoder).rest().len(),
         decreases old(decoder).rest().len(),
+    @start
+        let ghost s0 = decoder.rest();
+        proof {
+            lemma_suffix_refl(s0);
+            if s0.len() >= 1 {
+                // what each arm may consume after the tag byte
+                lemma_any_arm_reads(s0);
+            }
+        }
+    @after 1 `stmt:let len`
+        let ghost s2 = decoder.rest();
+        proof { lemma_suffix_step(s0, s0.skip(1), s2); }
+    @loop 1 iter=it
+        invariant
+            s0 == old(decoder).rest(),
+            decoder.wf(),
+            suffix_of(s0, s2),
+            suffix_of(s2, decoder.rest()),
+            s2.len() < s0.len(),
+            0 <= it.index@,
+            decoder.rest().len() + 2 * it.index@ <= s2.len(),
+    @before 1 `stmt:let key`
+        let ghost sa = decoder.rest();
+        proof {
+            lemma_suffix_step(s0, s2, sa);
+            lemma_suffix_trans(s0, sa);
+            lemma_dec_buf_bounded(sa);
+            // (`key` borrows the decoder until the insert below: what is left after the key is named through the spec)
+            if dec_buf(sa) is Some {
+                let sb = sa.skip(dec_buf(sa)->Some_0.1 as int);
+                lemma_suffix_skip(sa, dec_buf(sa)->Some_0.1);
+                lemma_suffix_step(s0, sa, sb);
+                lemma_suffix_step(s2, sa, sb);
+                lemma_suffix_trans(s0, sb);
+            }
+        }
+    @after 1 `stmt:call insert`
+        proof { lemma_suffix_step(s2, sa.skip(dec_buf(sa)->Some_0.1 as int), decoder.rest()); }
+    @before 1 `stmt:call Any::Map`
+        proof { lemma_suffix_step(s0, s2, decoder.rest()); }
+    @after 2 `stmt:let len`
+        let ghost s2 = decoder.rest();
+        proof { lemma_suffix_step(s0, s0.skip(1), s2); }
+    @loop 2 iter=it
+        invariant
+            s0 == old(decoder).rest(),
+            decoder.wf(),
+            suffix_of(s0, s2),
+            suffix_of(s2, decoder.rest()),
+            s2.len() < s0.len(),
+            0 <= it.index@,
+            decoder.rest().len() + it.index@ <= s2.len(),
+    @before 1 `stmt:call push`
+        let ghost sa = decoder.rest();
+        proof {
+            lemma_suffix_step(s0, s2, sa);
+            lemma_suffix_trans(s0, sa);
+        }
+    @after 1 `stmt:call push`
+        proof { lemma_suffix_step(s2, sa, decoder.rest()); }
+    @before 1 `stmt:call Any::Array`
+        proof { lemma_suffix_step(s0, s2, decoder.rest()); }
     @*/
+}
+
+/// after the tag byte: whatever an arm of `Any::decode` reads next, what it leaves is a suffix of the input
+pub proof fn lemma_any_arm_reads(s0: Seq<u8>)
+    requires
+        s0.len() >= 1,
+    ensures
+        suffix_of(s0, s0.skip(1)),
+        forall|c: Seq<u8>| #[trigger] suffix_of(s0.skip(1), c) ==> suffix_of(s0, c),
+        match <i64 as VarInt>::dec(s0.skip(1)) { Some((v, k)) => suffix_of(s0, s0.skip(1).skip(k as int)), None => true },
+        match <usize as VarInt>::dec(s0.skip(1)) { Some((v, k)) => suffix_of(s0.skip(1), s0.skip(1).skip(k as int)), None => true },
+        match dec_buf(s0.skip(1)) { Some((v, k)) => suffix_of(s0, s0.skip(1).skip(k as int)), None => true },
+        s0.len() >= 5 ==> suffix_of(s0, s0.skip(1).skip(4)),
+        s0.len() >= 9 ==> suffix_of(s0, s0.skip(1).skip(8)),
+{
+    let s1 = s0.skip(1);
+    lemma_suffix_skip(s0, 1);
+    lemma_suffix_trans(s0, s1);
+    <i64 as VarInt>::law_dec_bounded(s1);
+    if <i64 as VarInt>::dec(s1) is Some { lemma_suffix_skip(s1, <i64 as VarInt>::dec(s1)->Some_0.1); }
+    <usize as VarInt>::law_dec_bounded(s1);
+    if <usize as VarInt>::dec(s1) is Some { lemma_suffix_skip(s1, <usize as VarInt>::dec(s1)->Some_0.1); }
+    lemma_dec_buf_bounded(s1);
+    if dec_buf(s1) is Some { lemma_suffix_skip(s1, dec_buf(s1)->Some_0.1); }
+    if s0.len() >= 5 { lemma_suffix_skip(s1, 4); }
+    if s0.len() >= 9 { lemma_suffix_skip(s1, 8); }
 }
